@@ -265,9 +265,19 @@ func c16Profiles(tier string) []Profile {
 		}}
 	faulted := Profile{Name: "faulted-enumeration", Exec: OnlySigs(c07Exec(1, 1, false), "len-wrong", "visit:", "enumerate:"),
 		Budget: map[int]int{1: 0, 2: 0, 3: 1}, ShardLevel: 3,
-		Rule: "enumeration when a file call fails: the C07 driver (6 initial stores x every single operation x one failing file call at every index, retried or not; a call that reports success is taken at its word) followed by Set, Flush, the full read battery, a copy of the file re-opened, Reopen and the battery again; Len and the full visits either report the error or enumerate every item (a read error dropped inside the ascending visit gives a short count)"}
+		Rule: "enumeration when a file call fails: the C07 driver (7 initial stores x every single operation x one failing file call at every index, retried or not; a call that reports success is taken at its word) followed by Set, Flush, the full read battery, a copy of the file re-opened, Reopen and the battery again; Len and the full visits either report the error or enumerate every item (a read error dropped inside the ascending visit gives a short count)"}
+	shapes := shapesProfile("shapes", 5, 2, harness.Monitors{}, func(w *harness.World) {
+		if _, ok := w.Colls["x"]; ok && !w.Closed {
+			w.LenOp("x")
+			w.BlockVisit("x", false)
+			w.RandomVisit("x")
+		}
+		w.ObserveAll()
+	})
 	return []Profile{
 		faulted,
+		{Name: "shapes", Exec: shapes.Exec(), Budget: map[int]int{explore.ClassRand: 0},
+			Rule: shapesRule(5, 2) + "; then Len, VisitItemsAscendBlockEx and VisitItemsRandom: every item exactly once"},
 		{Name: "histories", Exec: hist.Exec(), Budget: map[int]int{explore.ClassRand: 0},
 			Rule: fmt.Sprintf("every history of length <= %d over Set (3 keys), Delete, Len, VisitItemsAscendBlockEx and VisitItemsRandom, then Len and a block visit again and Len on a fresh store of the same process: the count must follow every mutation", hd)},
 		{Name: "small", Exec: c16Exec(small, true), Rule: "n in 0..5 x {memory, flushed+evicted, reopened} x 3 priority patterns x 2 key sets x {default, reverse comparator} x {Len, VisitItemsAscendBlockEx with nil/identity/reverse/rotate/every permutation x withValue, VisitItemsRandom with every answer sequence of the random source (every block permutation)}"},
